@@ -9,6 +9,16 @@ TRUST = ("Trusted base: CPython, Hypothesis, the reference models under lsfverif
          "'held' means held on the cases counted in the evidence file.")
 
 CHECKS = {
+    "C04": dict(
+        category="exploration",
+        technique="fault-injection property testing: generated machines x schedules re-run with injected engine crashes (between any two handler invocations, or after any individual broker operation inside a handler) followed by restart with redelivery; differential against the crash-free baseline run of the same case",
+        text=("Each generated case is first run without a fault. The engine process is then killed at a drawn (thorough: every) scheduler step or in-handler broker operation: the simulated broker requeues its unacknowledged "
+              "deliveries as redelivered, its timers and in-memory tables vanish, workers and the clock keep running for a drawn down time, and a new engine with the same instance id is started. Between-handler crashes must "
+              "preserve the baseline's terminal status/output/error, end the execution exactly once and never request a task correlation id twice; in-handler crashes must not lose an announced execution; afterwards nothing may be "
+              "left unacknowledged or queued. One and two crashes per run."),
+        design_ref="DESIGN.md section 5 C04",
+        note="File-backed configuration (execution tables in process memory). " + TRUST,
+    ),
     "C18": dict(
         category="exploration",
         technique="mutation-based property testing: Hypothesis-generated well-formed machines structurally mutated (and arbitrary JSON values / mutated queue events); validator totality, validator-accepts => runs without structural failure on the real engine, and poison isolation beside healthy executions under generated schedules",
